@@ -315,7 +315,8 @@ def KindDefault (b : Backend) (md : Md) : Prop :=
 
 /-- defect exclusion (known finding "cms singleton"): the CMS branches build a collection
 whatever `contains_collection` says -/
-def CmsIsCollection (b : Backend) (md : Md) : Prop := b = .atlas ∨ md.flag = true
+def CmsIsCollection (b : Backend) (md : Md) : Prop :=
+  b = .atlas ∨ md.flag = true ∨ md.has t!"contains_collection" = false
 
 def endsInDigit (t : Text) : Bool :=
   match t.getLast? with
